@@ -21,7 +21,7 @@ MC_INV = ['C16_Symmetric', 'C16_MassPositive', 'C20_StiffSemiPositive']
 
 
 def mc(rep, tier, tag):
-    cfg = ('SPECIFICATION Spec\nCONSTANTS LAT = %d\n GRIDS <- %s\n DATASETS <- MCData\n MAXD = 2\n' % (LAT, 'MCGrids' if tier == 'quick' else 'MCGridsBig')
+    cfg = ('SPECIFICATION Spec\nCONSTANTS LAT = %d\n GRIDS <- %s\n DATASETS <- MCData\n MAXD = 2\n MAXPTS = 100000\n' % (LAT, 'MCGrids' if tier == 'quick' else 'MCGridsBig')
            + ''.join('INVARIANT %s\n' % i for i in MC_INV) + 'CHECK_DEADLOCK FALSE\n')
     r, g = tlc.run('MC_HatSystems', cfg, tag, dump=True, timeout=3000)
     rep.tlc('HatSystems ' + tier, r)
@@ -29,7 +29,7 @@ def mc(rep, tier, tag):
         raise tlc.TLCError('HatSystems.tla violates %s' % r.violated)
     out = [g.states[k] for k in sorted(g.states)]
     # three dimensions: uniform grids only (the band structure of the matrix changes with the dimension)
-    cfg3 = ('SPECIFICATION Spec\nCONSTANTS LAT = %d\n GRIDS <- MCGrids3\n DATASETS <- MCData3\n MAXD = 3\n' % LAT
+    cfg3 = ('SPECIFICATION Spec\nCONSTANTS LAT = %d\n GRIDS <- MCGrids3\n DATASETS <- MCData3\n MAXD = 3\n MAXPTS = 100000\n' % LAT
             + ''.join('INVARIANT %s\n' % i for i in MC_INV) + 'CHECK_DEADLOCK FALSE\n')
     r3, g3 = tlc.run('MC_HatSystems', cfg3, tag + 'd3', dump=True, timeout=3000)
     rep.tlc('HatSystems three dimensions', r3)
